@@ -33,6 +33,9 @@ C01_Blocks == Stmts({0}, Single \cup Multi \cup {"tri3", "pair2", "mlb3"}, {"non
               \* valid Python the parser cannot read today (known findings F9, F10): kept in the space so that the check reports them
               \cup {St(0, "f9", "c", "none"), St(0, "f9", "a", "none"), St(0, "f10", "c", "none")}
 
+\* ---- C18: formatting (the programs of C01 without the statement that holds an empty line: known finding F21 is C13/C01 business)
+C18_Blocks == {b \in C01_Blocks : b.shape # "mlb3"}
+
 \* ---- C19: dump (programs as C01, smaller shape set, plus a star-import statement)
 C19_Blocks == Stmts({0}, {"one", "expr", "cmt", "ml2", "ml3", "cmp2", "deco3", "tri3", "star"}, {"none"})
               \cup Stmts({0}, {"one", "cmp2"}, {"last"})
